@@ -797,6 +797,18 @@ sqf::runtime::runtime::result sqf::runtime::runtime::execute(sqf::runtime::runti
         eval_context->push_frame(f);
         auto old_active = context_active_as_shared();
         m_context_active = eval_context;
+        // Outside of a run, an evaluation is an execution of its own: neither the exit
+        // request an earlier run left behind nor that run's time budget apply to it.
+        bool own_run = !m_run_atomic;
+        auto old_is_exit_requested = m_is_exit_requested;
+        auto old_exit_code = m_exit_code;
+        auto old_run_timestamp = m_run_timestamp;
+        if (own_run)
+        {
+            m_is_exit_requested = false;
+            run_timestamp_reset();
+        }
+        bool aborted = false;
         try
         {
             while (!eval_context->empty())
@@ -808,6 +820,11 @@ sqf::runtime::runtime::result sqf::runtime::runtime::execute(sqf::runtime::runti
                 }
                 execute_do(*this, 1);
                 m_state = oldstate;
+                if (m_is_exit_requested)
+                { // Nothing executes once an exit got requested (time limit, exit__): the evaluation is over.
+                    eval_context->clear_frames();
+                    aborted = true;
+                }
             }
         }
         catch (const std::exception& ex)
@@ -815,6 +832,19 @@ sqf::runtime::runtime::result sqf::runtime::runtime::execute(sqf::runtime::runti
             m_evaluate_halt = false;
         }
         m_context_active = old_active;
+        if (own_run)
+        {
+            m_is_exit_requested = old_is_exit_requested;
+            m_exit_code = old_exit_code;
+            m_run_timestamp = old_run_timestamp;
+        }
+        if (aborted)
+        {
+            m_evaluate_halt = false;
+            m_runtime_error = false;
+            success = false;
+            return {};
+        }
         if (m_runtime_error)
         {
             m_evaluate_halt = false;
